@@ -335,5 +335,20 @@ func main() {
 		sort.Strings(rs)
 		pf("Definition reserved_words : list string := [%s].\n\n", strings.Join(rs, "; "))
 	}
+	// ---- shared mutable state (C14) and recover placement (C12) ----
+	{
+		ss := sharedState()
+		var xs []string
+		for _, x := range ss {
+			xs = append(xs, coqStr(x))
+		}
+		pf("Definition shared_state : list string := [\n  %s].\n\n", strings.Join(xs, ";\n  "))
+		rs := recoverSites()
+		xs = nil
+		for _, x := range rs {
+			xs = append(xs, coqStr(x))
+		}
+		pf("Definition recover_sites : list string := [\n  %s].\n\n", strings.Join(xs, ";\n  "))
+	}
 	os.Stdout.Write(out.Bytes())
 }
